@@ -142,4 +142,42 @@ theorem versionRejected_false_iff (c : Consensus) (ver height : Nat) : versionRe
       · right; exact fun g => d ⟨h, g⟩
       · left; exact h
 
+/-- a node number whose ancestor list is not empty is a node of the tree -/
+theorem chain_ne_nil_lt {U : Type} (cs : ChainSt U) (n : Nat) (h : cs.chain n ≠ []) : n < cs.nodes.size := by
+  unfold ChainSt.chain chainOf at h
+  by_cases hlt : n < cs.nodes.size
+  · exact hlt
+  · exfalso
+    apply h
+    have hn : ¬ ((n : Int) < 0) := by omega
+    simp only [hn, if_false, Int.toNat_natCast]
+    have : cs.nodes[n]? = none := by
+      rw [Array.getElem?_eq_none_iff]; omega
+    rw [this]
+
+/-- GetBlockFlags over six Booleans (one per rule), for the finite case analysis of `getBlockFlags_spec` -/
+def flagsB (b1 b2 b3 b4 b5 b6 : Bool) : Nat :=
+  let f := if b1 then VER_P2SH else 0
+  let f := if b2 then f ||| VER_DERSIG else f
+  let f := if b3 then f ||| VER_CLTV else f
+  let f := if b4 then f ||| VER_CSV else f
+  let f := if b5 then f ||| (VER_WITNESS ||| VER_NULLDUMMY) else f
+  if b6 then f ||| VER_TAPROOT else f
+
+theorem getBlockFlags_eq_flagsB (c : Consensus) (height time : Nat) :
+    getBlockFlags c height time =
+      flagsB (decide (time = 0 ∨ time ≥ BIP16SwitchTime)) (decide (height ≥ c.bip66Height)) (decide (height ≥ c.bip65Height))
+        (decide (c.enforceCSV ≠ 0 ∧ height ≥ c.enforceCSV)) (decide (c.enforceSegwit ≠ 0 ∧ height ≥ c.enforceSegwit))
+        (decide (c.enforceTaproot ≠ 0 ∧ height ≥ c.enforceTaproot)) := by
+  unfold getBlockFlags flagsB
+  simp only [decide_eq_true_eq]
+
+theorem flagsB_spec : ∀ b1 b2 b3 b4 b5 b6 : Bool,
+    (flagsB b1 b2 b3 b4 b5 b6 &&& VER_P2SH ≠ 0 ↔ b1 = true) ∧ (flagsB b1 b2 b3 b4 b5 b6 &&& VER_DERSIG ≠ 0 ↔ b2 = true) ∧
+    (flagsB b1 b2 b3 b4 b5 b6 &&& VER_CLTV ≠ 0 ↔ b3 = true) ∧ (flagsB b1 b2 b3 b4 b5 b6 &&& VER_CSV ≠ 0 ↔ b4 = true) ∧
+    (flagsB b1 b2 b3 b4 b5 b6 &&& VER_WITNESS ≠ 0 ↔ b5 = true) ∧ (flagsB b1 b2 b3 b4 b5 b6 &&& VER_NULLDUMMY ≠ 0 ↔ b5 = true) ∧
+    (flagsB b1 b2 b3 b4 b5 b6 &&& VER_TAPROOT ≠ 0 ↔ b6 = true) := by
+  decide
+
+
 end GocoinV.Proofs.C05
